@@ -329,7 +329,11 @@ func genRef(t *rapid.T, minLen, maxLen int, iupac bool) string {
 func genTruth(t *rapid.T, ref string) []byte {
 	tr := []byte(strings.ToUpper(ref))
 	n := len(tr)
-	for k := rapid.IntRange(0, 1+n/8).Draw(t, "nSub"); k > 0; k-- {
+	maxSub := 1 + n/8
+	if maxSub > 40 {
+		maxSub = 40 // long references: a few dozen substitutions are enough, thousands of draws are not
+	}
+	for k := rapid.IntRange(0, maxSub).Draw(t, "nSub"); k > 0; k-- {
 		p := rapid.IntRange(0, n-1).Draw(t, "subPos")
 		if rapid.IntRange(0, 4).Draw(t, "subKind") == 0 {
 			tr[p] = iupac15[4+rapid.IntRange(0, 10).Draw(t, "subAmb")]
@@ -581,6 +585,9 @@ func genSamInput(t *rapid.T, o samGenOpts) SamInput {
 	}
 	hugeMode = huge
 	nq := rapid.IntRange(1, o.maxQueries).Draw(t, "nQueries")
+	if huge && nq > 2 {
+		nq = 2 // long references: gofasta's per-column flattening of multi-record queries is slow, keep the case cheap
+	}
 	if !huge && sizeClass(t, "sam") == 1 {
 		nq = rapid.IntRange(40, 80).Draw(t, "nQueriesMany")
 	}
@@ -595,7 +602,7 @@ func genSamInput(t *rapid.T, o samGenOpts) SamInput {
 	for qi, name := range names {
 		truth := genTruth(t, in.Ref)
 		nrec := 1
-		if rapid.IntRange(0, 9).Draw(t, "multi") < 4 {
+		if o.maxRecs >= 2 && rapid.IntRange(0, 9).Draw(t, "multi") < 4 {
 			nrec = rapid.IntRange(2, o.maxRecs).Draw(t, "nRecs")
 		}
 		used := map[int]bool{}
